@@ -1,7 +1,8 @@
 """property -> correspondence suites"""
-from .suites import pure, diff, walk, sync, proto, faults, metaonly, wire, filt, follow, copy
+from .suites import pure, diff, walk, sync, proto, faults, metaonly, wire, filt, follow, copy, tar
 
 PROPS = {
+    "C17": {"suites": [tar.TarSuite], "assumptions": ["the byte layout of ustar/PAX is archive/tar's and is trusted; the model is about the member abstraction"]},
     "C13": {"suites": [copy.CopyPreserve], "assumptions": ["Linux/ext4 semantics observed through an independent lstat snapshot; symbolic mode strings are not generated"]},
     "C14": {"suites": [copy.CopyEscape], "assumptions": ["copy runs in a chroot'ed child; sentinels outside both roots are snapshotted before/after"]},
     "C15": {"suites": [copy.CopyOverlay], "assumptions": ["idempotence reading: see DESIGN.md C15-T3"]},
